@@ -18,6 +18,15 @@ theorem Reads.seekExact (bs : Bytes) (n : Int) (h : n = bs.length) : Reads (seek
   have e : ((pre.length : Int) + (bs.length : Int)).toNat = pre.length + bs.length := by omega
   rw [e]
 
+/-- `sbdf_skip_bytes` over exactly the bytes to skip, on streams that can seek and streams that cannot -/
+theorem Reads.skipBytesExact (c : Cfg) (bs : Bytes) (n : Int) (h : n = bs.length) : Reads (skipBytes c n) bs () := by
+  unfold skipBytes; split
+  · subst h
+    unfold discard
+    have := Reads.bind (Reads.readN bs) (f := fun _ => P.pure ()) (Reads.pure _)
+    simpa using this
+  · exact Reads.seekExact bs n h
+
 theorem Reads.allocOk (c : Cfg) (n : Int) (h0 : 0 ≤ n) (h1 : n ≤ c.cap) : Reads (alloc c n) [] () := by
   unfold alloc
   have : ¬ (n < 0 ∨ n > c.cap) := by omega
@@ -73,7 +82,7 @@ theorem reads_skipString (c : Cfg) (s : Bytes) (h : isInt32 (s.length : Int)) : 
   refine Reads.bind (reads_int32 c _ h) ?_
   have hn : ¬ ((s.length : Int) < 0) := by omega
   simp only [hn, if_false]
-  exact Reads.seekExact s _ rfl
+  exact Reads.skipBytesExact c s _ rfl
 
 /-! ### sections -/
 
